@@ -45,10 +45,13 @@ Proof.
 Qed.
 
 Lemma targetDuration_ge segs g : In g segs -> roundSeconds (round10us (sg_dur g)) <= targetDuration segs.
-Proof. intros H. unfold targetDuration. apply (fold_max_in (fun s => roundSeconds (round10us (sg_dur s)))). exact H. Qed.
+Proof.
+  intros H. unfold targetDuration.
+  eapply Z.le_trans; [apply (fold_max_in (fun s => roundSeconds (round10us (sg_dur s))) segs 0 g H)|apply Z.le_max_r].
+Qed.
 
 Lemma targetDuration_nonneg segs : 0 <= targetDuration segs.
-Proof. unfold targetDuration. apply (fold_max_ge (fun s => roundSeconds (round10us (sg_dur s)))). Qed.
+Proof. unfold targetDuration. lia. Qed.
 
 Lemma ceilMs_ge d : d <= ceilMs d.
 Proof.
